@@ -50,3 +50,4 @@ char *vf_strdup(const char *s, const char *fn, const char *ex) { if (tick(fn, ex
 void vf_free(void *p) { out(p); free(p); }
 void *vf_memcpy(void *d, const void *s, size_t n) { vf_moved += (long) n; return memcpy(d, s, n); }
 void *vf_memmove(void *d, const void *s, size_t n) { vf_moved += (long) n; return memmove(d, s, n); }
+int vf_gettimeofday(struct timeval *tv, void *tz) { (void) tz; if (tv) { tv->tv_sec = 1000000; tv->tv_usec = 0; } return 0; }
